@@ -1,10 +1,10 @@
 import Gv.Model.Fmt.Fasta
-import Gv.Proofs.BagInv
+import Gv.Proofs.FmtBagInv
 /-!
 The FASTA parser loop keeps the container invariant (helper development for `Props/C03.lean`).
 -/
 namespace Gv.Proofs.FastaOutcome
-open Gv Gv.Model Gv.Model.Fmt Gv.Model.Fmt.Fasta Gv.Proofs.BagInv
+open Gv Gv.Model Gv.Model.Fmt Gv.Model.Fmt.Fasta Gv.Proofs.FmtBagInv
 
 /-- what the loop preserves -/
 def Good (b : Bag) : Prop := Inv b ∧ Pos b
